@@ -39,6 +39,13 @@ theorem rpc_error_never_delivered_as_result (fuel : Nat) (st : St) (b : Bytes) (
   have := (near_handle fuel).1 st b id d h r
   simpa [Facts.C23.rpcErrorTypeID] using this
 
+/-- Duplicate acknowledgements: however often a msgs_ack names an id, its waiter is closed at most
+as often as it is registered (once): `NotifyAcks` removes the waiter it closes (closing a closed
+channel would panic). -/
+theorem ack_waiter_closed_at_most_once (acks ids : List Nat) (id : Nat) (h : acks.count id ≤ 1) :
+    (notifyAcks acks ids).2.count (Ev.ack id) ≤ 1 :=
+  Nat.le_trans (notifyAcks_count id ids acks) h
+
 /-- Handling a payload never changes which requests are pending. -/
 theorem pending_unchanged (fuel : Nat) (st : St) (b : Bytes) :
     (handle fuel st b).st.pending = st.pending :=
